@@ -213,7 +213,19 @@ fn main() {
     for _ in 0..rng.urange(2, 6) {
       match rng.below(10) {
         0..=5 => {
-          steps.push(Step::Add((0..rng.urange(1, 6)).map(|_| gen_doc(rng, ids, &mut v)).collect()));
+          let mut batch: Vec<Value> = (0..rng.urange(1, 6)).map(|_| gen_doc(rng, ids, &mut v)).collect();
+          if rng.chance(0.35) {
+            // a document changed and then reverted inside one batch (X, Y, X), or repeated verbatim:
+            // order matters for upserts, byte-identical lines are still separate operations
+            let x = batch[rng.usize(batch.len())].clone();
+            if rng.chance(0.7) {
+              let mut y = gen_doc(rng, ids, &mut v);
+              y["_id"] = x["_id"].clone();
+              batch.push(y);
+            }
+            batch.push(x);
+          }
+          steps.push(Step::Add(batch));
           steps.push(Step::Commit);
         }
         6..=7 => {
